@@ -332,22 +332,39 @@ func (ck *Check) libraryPreconditions(rule string, fns []*ssa.Function) {
 				case strings.HasSuffix(full, "Vec).WithLabelValues") && strings.Contains(full, "prometheus."):
 					counts["label-arity"]++
 					key := mk("label-arity")
-					var g *ssa.Global
-					if u, ok := cc.Args[0].(*ssa.UnOp); ok && u.Op == token.MUL {
-						g, _ = u.X.(*ssa.Global)
+					// the package-level vectors the receiver can be: directly, or through a parameter, a
+					// captured variable, a table of vectors
+					gs, whyG := ck.vectorOrigins(fn, cc.Args[0], map[ssa.Value]bool{}, 0)
+					if len(gs) == 0 && whyG == "" {
+						whyG = "no origin found"
 					}
-					if g == nil {
-						ck.undecided(rule, key, pos, funcID(fn), "WithLabelValues is called on a package-level metric vector", "receiver "+cc.Args[0].String()+" is not a load of a package-level variable")
+					if whyG != "" {
+						ck.undecided(rule, key, pos, funcID(fn), "WithLabelValues is called on a package-level metric vector", "receiver "+cc.Args[0].String()+": "+whyG)
 						continue
 					}
-					want, why := ck.metricLabelCount(g)
 					got, okc := variadicCount(cc.Args[1])
-					if want < 0 || !okc {
-						ck.undecided(rule, key, pos, funcID(fn), "label names and label values can be counted", g.Name()+": "+why)
+					okAll, undec := true, ""
+					var found []string
+					for _, g := range gs {
+						want, why := ck.metricLabelCount(g)
+						if want < 0 || !okc {
+							undec = g.Name() + ": " + why
+							break
+						}
+						found = append(found, fmt.Sprintf("%s: %d label names, %d values", g.Name(), want, got))
+						if want != got {
+							okAll = false
+						}
+					}
+					if undec != "" {
+						ck.undecided(rule, key, pos, funcID(fn), "label names and label values can be counted", undec)
 						continue
 					}
-					ck.cond(want == got, rule, key, pos, funcID(fn), "WithLabelValues passes as many values as the vector has label names",
-						fmt.Sprintf("%s: %d label names, %d values", g.Name(), want, got), "prometheus panics with 'inconsistent label cardinality' when the scan reaches this call")
+					if len(found) > 4 {
+						found = append(found[:4], fmt.Sprintf("… (%d vectors)", len(gs)))
+					}
+					ck.cond(okAll, rule, key, pos, funcID(fn), "WithLabelValues passes as many values as the vector has label names",
+						strings.Join(found, "; "), "prometheus panics with 'inconsistent label cardinality' when the scan reaches this call")
 				case full == "time.NewTicker" || full == "time.Tick":
 					counts["ticker"]++
 					k, ok := cc.Args[0].(*ssa.Const)
@@ -560,4 +577,236 @@ func (ck *Check) fallibleStores(rule string, fns []*ssa.Function) {
 		}
 	}
 	ck.Stats[rule+" fallible stores into controller / group state"] = n
+}
+
+// vectorOrigins: the package-level variables a metric-vector value can have been loaded from. The
+// value may be such a load, a φ of them, a parameter (then: the argument at every call of the
+// function), a captured variable, or an element / field of a table filled from such loads (field
+// stores are collected program-wide by field, element stores by backing array). A non-empty
+// reason means the origin set is not known to be complete.
+func (ck *Check) vectorOrigins(fn *ssa.Function, v ssa.Value, seen map[ssa.Value]bool, depth int) ([]*ssa.Global, string) {
+	if seen[v] {
+		return nil, ""
+	}
+	seen[v] = true
+	if depth > 6 {
+		return nil, "origin chain too deep"
+	}
+	var out []*ssa.Global
+	add := func(gs []*ssa.Global, why string) string {
+		for _, g := range gs {
+			dup := false
+			for _, o := range out {
+				if o == g {
+					dup = true
+				}
+			}
+			if !dup {
+				out = append(out, g)
+			}
+		}
+		return why
+	}
+	storesInto := func(match func(addr ssa.Value) bool, fns []*ssa.Function) string {
+		n := 0
+		for _, f := range fns {
+			for _, b := range f.Blocks {
+				for _, in := range b.Instrs {
+					if st, ok := in.(*ssa.Store); ok && match(st.Addr) {
+						n++
+						if why := add(ck.vectorOrigins(f, st.Val, seen, depth+1)); why != "" {
+							return why
+						}
+					}
+				}
+			}
+		}
+		if n == 0 {
+			return "no store into the table found"
+		}
+		return ""
+	}
+	switch x := v.(type) {
+	case *ssa.UnOp:
+		if x.Op != token.MUL {
+			return nil, "unexpected operation " + x.String()
+		}
+		switch a := x.X.(type) {
+		case *ssa.Global:
+			return []*ssa.Global{a}, ""
+		case *ssa.FieldAddr:
+			f := fieldOfAddr(a)
+			if why := storesInto(func(addr ssa.Value) bool { fa, ok := addr.(*ssa.FieldAddr); return ok && fieldOfAddr(fa) == f }, ck.P.Funcs); why != "" {
+				return nil, why
+			}
+			return out, ""
+		case *ssa.IndexAddr:
+			base := a.X
+			if sl, ok := base.(*ssa.Slice); ok {
+				base = sl.X
+			}
+			if ld, ok := base.(*ssa.UnOp); ok && ld.Op == token.MUL {
+				// a slice held in a local variable: the values stored into that variable
+				if al, ok := ld.X.(*ssa.Alloc); ok {
+					for _, r := range *al.Referrers() {
+						if st, ok := r.(*ssa.Store); ok && st.Addr == ssa.Value(al) {
+							if sl, ok := st.Val.(*ssa.Slice); ok {
+								base = sl.X
+							}
+						}
+					}
+				}
+			}
+			al, ok := base.(*ssa.Alloc)
+			if !ok {
+				return nil, "element of a table that is not a local literal"
+			}
+			if why := storesInto(func(addr ssa.Value) bool { ia, ok := addr.(*ssa.IndexAddr); return ok && ia.X == ssa.Value(al) }, []*ssa.Function{fn}); why != "" {
+				return nil, why
+			}
+			return out, ""
+		case *ssa.Alloc:
+			if why := storesInto(func(addr ssa.Value) bool { return addr == ssa.Value(a) }, append([]*ssa.Function{fn}, fn.AnonFuncs...)); why != "" {
+				return nil, why
+			}
+			return out, ""
+		case *ssa.FreeVar:
+			return ck.freeVarOrigins(fn, a, true, seen, depth)
+		}
+		return nil, "load from " + x.X.String()
+	case *ssa.Field:
+		st, ok := x.X.Type().Underlying().(*types.Struct)
+		if !ok {
+			return nil, "field of a non-struct"
+		}
+		f := st.Field(x.Field)
+		if why := storesInto(func(addr ssa.Value) bool { fa, ok := addr.(*ssa.FieldAddr); return ok && fieldOfAddr(fa) == f }, ck.P.Funcs); why != "" {
+			return nil, why
+		}
+		return out, ""
+	case *ssa.Phi:
+		for _, e := range x.Edges {
+			if why := add(ck.vectorOrigins(fn, e, seen, depth+1)); why != "" {
+				return nil, why
+			}
+		}
+		return out, ""
+	case *ssa.FreeVar:
+		return ck.freeVarOrigins(fn, x, false, seen, depth)
+	case *ssa.Parameter:
+		idx := -1
+		for i, p := range fn.Params {
+			if p == x {
+				idx = i
+			}
+		}
+		if idx < 0 {
+			return nil, "parameter not found"
+		}
+		sites := 0
+		scan := []*ssa.Function{}
+		if fn.Parent() != nil {
+			scan = append(scan, fn.Parent())
+			scan = append(scan, fn.Parent().AnonFuncs...)
+		} else {
+			scan = ck.P.callers[fn]
+		}
+		for _, caller := range scan {
+			for _, ci := range callsIn(caller, nil) {
+				hit := false
+				for _, g := range ck.P.calleesOf(ci) {
+					if g == fn {
+						hit = true
+					}
+				}
+				if !hit {
+					continue
+				}
+				args := ci.Common().Args
+				off := 0
+				if ci.Common().IsInvoke() {
+					off = 1
+				}
+				if idx-off < 0 || idx-off >= len(args) {
+					return nil, "argument not found at " + ck.P.instrPos(ci)
+				}
+				sites++
+				if why := add(ck.vectorOrigins(caller, args[idx-off], seen, depth+1)); why != "" {
+					return nil, why
+				}
+			}
+		}
+		if sites == 0 {
+			return nil, "no call site of " + funcID(fn) + " resolved"
+		}
+		return out, ""
+	}
+	return nil, "unexpected value " + v.String()
+}
+
+// freeVarOrigins: the vectors behind a captured variable: the binding at the MakeClosure (a value,
+// or — when loaded is set — the variable's cell, then every store into it).
+func (ck *Check) freeVarOrigins(fn *ssa.Function, fv *ssa.FreeVar, loaded bool, seen map[ssa.Value]bool, depth int) ([]*ssa.Global, string) {
+	parent := fn.Parent()
+	if parent == nil {
+		return nil, "captured variable without an enclosing function"
+	}
+	idx := -1
+	for i, f := range fn.FreeVars {
+		if f == fv {
+			idx = i
+		}
+	}
+	var out []*ssa.Global
+	n := 0
+	for _, b := range parent.Blocks {
+		for _, in := range b.Instrs {
+			mc, ok := in.(*ssa.MakeClosure)
+			if !ok || mc.Fn != ssa.Value(fn) || idx < 0 || idx >= len(mc.Bindings) {
+				continue
+			}
+			n++
+			bd := mc.Bindings[idx]
+			var gs []*ssa.Global
+			var why string
+			if loaded {
+				al, ok := bd.(*ssa.Alloc)
+				if !ok {
+					return nil, "captured cell is not a local variable"
+				}
+				stores := 0
+				for _, f := range append([]*ssa.Function{parent}, parent.AnonFuncs...) {
+					for _, b2 := range f.Blocks {
+						for _, in2 := range b2.Instrs {
+							st, ok := in2.(*ssa.Store)
+							if !ok {
+								continue
+							}
+							if st.Addr == ssa.Value(al) {
+								stores++
+								g2, w2 := ck.vectorOrigins(f, st.Val, seen, depth+1)
+								if w2 != "" {
+									return nil, w2
+								}
+								gs = append(gs, g2...)
+							}
+						}
+					}
+				}
+				if stores == 0 {
+					why = "captured variable is never assigned"
+				}
+			} else {
+				gs, why = ck.vectorOrigins(parent, bd, seen, depth+1)
+			}
+			if why != "" {
+				return nil, why
+			}
+			out = append(out, gs...)
+		}
+	}
+	if n == 0 {
+		return nil, "closure construction not found"
+	}
+	return out, ""
 }
